@@ -1,0 +1,16 @@
+//go:build verif
+
+package metadatapart
+
+// Contracts checked by /verif/gocv (comment-only file; see /verif/DESIGN.md §3).
+
+//@ func normalizeAndValidateRanges
+//@ arith int
+//@ requires objectSize >= 0
+//@ ensures[C05:slice-exact] err == nil ==> len(result) == len(ranges) &&
+//@     forall k :: 0 <= k && k < len(ranges) ==> specSameSlice(result[k], ranges[k], objectSize)
+//@ ensures[C05:only-416-when-none-satisfiable] err != nil ==>
+//@     !(exists k :: 0 <= k && k < len(ranges) && specSatisfiable(ranges[k], objectSize))
+//@ ensures[C05:error-kind] err == nil || err == storage.ErrInvalidRange
+//@ loop 0 invariant 0 <= i && i <= len(ranges) && len(normalized) == len(ranges)
+//@ loop 0 invariant forall k :: 0 <= k && k < i ==> specSameSlice(normalized[k], ranges[k], objectSize)
